@@ -51,8 +51,11 @@ RULE = ("filter: tracebacks over the pattern tables extracted from the current d
         "sequences up to length 3 (4 thorough), every pair of slices of the boilerplate runs framed by foreign lines, "
         "plus random long assemblies of complete runs / slices / multi-pattern / foreign / odd lines; glue: every chain of "
         "depth 1 and (reduced alphabet) 2 (3 thorough) plus random chains of depth 1-8 over await style x handler "
-        "(none, bare re-raise, raise e, raise new, swallow) x own raise (helper depth 0-3) x orphan x ErrorFuture "
-        "bottom; repr: the full kind x state table (exhaustive), each cell with str/repr/dump. non-trivial = filter "
+        "(none, bare re-raise, raise e, raise new, swallow) x own raise (helper depth 0-3) x orphan x bottom (nothing, "
+        "ErrorFuture, or a context hook - pause() on suspension / resume() on continuation of the innermost task blocked "
+        "on a batch item - raising through 0-3 helpers, every depth 1-4 (thorough 1-8)); repr: the full kind x state "
+        "table (exhaustive), each cell with str/repr/dump; scoped values and their override contexts additionally hold "
+        "every value shape ((), 1-, 2-, 3-tuple, nested tuple, dict, %-string, None, list) and must show that value. non-trivial = filter "
         "case with a complete and a partial run / chain where an exception crosses >= 2 task levels or an orphan "
         "asks for its stack after a creator failed / repr case with >= 3 states; distinct by case hash")
 TRUSTED = [
@@ -326,6 +329,10 @@ def gen_glue_random(rng, depth=None):
             "sync" if rng.random() < 0.15 else "yld", h, own, 1 if rng.random() < 0.5 else 0,
             rng.choice([0, 1, 1, 2]), rng.choice([0, 0, 1])))
     bottom = 1 if (levels[-1]["own"] is None and rng.random() < 0.6) or rng.random() < 0.1 else 0
+    if rng.random() < 0.15:
+        # the raiser is a hook of a context entered by the innermost level
+        bottom = ["hook", rng.choice(["pause", "resume"]), rng.choice([0, 0, 1, 2, 3])]
+        levels[-1].update(handler=["pass"], own=None)
     return {"sub": "glue", "bottom": bottom, "levels": levels}
 
 
@@ -350,6 +357,17 @@ def gen_glue_cases(tier, rng):
                 levels = [_level(orphan=1, pre=i % 3) for i in range(r + 1)]
                 levels[r]["own"] = h
                 cases.append({"sub": "glue", "bottom": 0, "levels": levels})
+    # the raiser is a context hook (pause on suspension / resume on continuation of a task blocked on a batch item):
+    # every depth 1-4 (thorough 1-8) x hook x helper depth, plain chains; depth 2 with every kind of level above the owner
+    for d in range(1, 5 if tier == "quick" else 9):
+        for mode in ("pause", "resume"):
+            for h in (0, 2):
+                for aw in ("yld", "sync"):
+                    levels = [_level(aw, orphan=1, pre=i % 2) for i in range(d)]
+                    cases.append({"sub": "glue", "bottom": ["hook", mode, h], "levels": levels})
+    for mode in ("pause", "resume"):
+        for l0 in red:
+            cases.append({"sub": "glue", "bottom": ["hook", mode, 1], "levels": [dict(l0), _level(orphan=1)]})
     for _ in range(500 if tier == "quick" else 8000):
         cases.append(gen_glue_random(rng))
     return cases
@@ -414,8 +432,12 @@ def shrink(case):
                 yield {"sub": "glue", "bottom": case["bottom"], "levels": ls}
     elif sub == "repr":
         only = case.get("only")
-        idxs = only if only is not None else list(range(64))   # scenario indices; beyond the table: no observation
-        if len(idxs) > 1:
+        idxs = only if only is not None else list(range(256))   # scenario indices; beyond the table: no observation
+        if len(idxs) > 8:
+            q = (len(idxs) + 3) // 4
+            for off in range(0, len(idxs), q):
+                yield {"sub": "repr", "kind": case["kind"], "only": idxs[off:off + q]}
+        elif len(idxs) > 1:
             for i in idxs:
                 yield {"sub": "repr", "kind": case["kind"], "only": [i]}
 
@@ -549,6 +571,12 @@ def _level_tmpl(ctx, lv):
     for _ in range(L["pre"]):
         yield None
     ctx.stack("start", lv)
+    if lv + 1 == ctx.n and ctx.hook is not None:
+        # innermost level of a "context hook raises" chain: block on a batch item inside `with ctx:`; the scheduler
+        # calls pause() when it suspends this task and resume() when it continues it after the flush
+        with ctx.make_hook_context(lv):
+            yield ctx.item(lv)
+        return lv
     if lv + 1 < ctx.n or ctx.bottom:
         if L["handler"][0] == "pass":
             if L["await"] == "yld":
@@ -591,6 +619,28 @@ def _helper_tmpl(ctx, lv, k, h, exc):
     ctx.hfn(lv, k + 1)(ctx, lv, k + 1, h, exc)
 
 
+def _hook_helper_tmpl(ctx, lv, k, h, exc):
+    if k >= h:
+        raise exc
+    ctx.jfn(lv, k + 1)(ctx, lv, k + 1, h, exc)
+
+
+def _hook_pause_tmpl(self):
+    self.npause += 1
+    if self.mode == "pause" and self.npause == 1:      # the scheduler suspends the blocked task
+        if self.h == 0:
+            raise GlueErr(4)
+        self.ctx.jfn(self.lv, 1)(self.ctx, self.lv, 1, self.h, GlueErr(4))
+
+
+def _hook_resume_tmpl(self):
+    self.nresume += 1
+    if self.mode == "resume" and self.nresume == 2:    # 1st: __enter__; 2nd: the scheduler continues the task
+        if self.h == 0:
+            raise GlueErr(4)
+        self.ctx.jfn(self.lv, 1)(self.ctx, self.lv, 1, self.h, GlueErr(4))
+
+
 def _orphan_tmpl(ctx, lv):
     yield None
     ctx.stack("orphan", lv)
@@ -611,7 +661,7 @@ def _rename(fn, name):
     return f
 
 
-_NAME_RE = re.compile(r"^([LHO])(\d+)(?:_(\d+))?$")
+_NAME_RE = re.compile(r"^([LHOKJ])(\d+)(?:_(\d+))?$")
 
 
 def _frame_tok(filename, name):
@@ -626,6 +676,10 @@ def _frame_tok(filename, name):
             return "(t %s)" % m.group(2)
         if m.group(1) == "H":
             return "(h %s %s)" % (m.group(2), m.group(3) or 0)
+        if m.group(1) == "K":
+            return "(k %s)" % m.group(2)
+        if m.group(1) == "J":
+            return "(j %s %s)" % (m.group(2), m.group(3) or 0)
         return "(o %s)" % m.group(2)
     return "(x)"
 
@@ -635,7 +689,10 @@ class GlueCtx(object):
         self.asynq = asynq_mod
         self.levels = case["levels"]
         self.n = len(self.levels)
-        self.bottom = bool(case["bottom"])
+        b = case["bottom"]
+        self.hook = (b[1], int(b[2])) if isinstance(b, list) else None    # ("pause" | "resume", helper depth)
+        self.bottom = bool(b) and self.hook is None                        # ErrorFuture at the bottom
+        self._batching = None
         self.stash = []
         self.events = []
         self._fns = {}
@@ -660,6 +717,25 @@ class GlueCtx(object):
         if k not in self._fns:
             self._fns[k] = _rename(_helper_tmpl, "H%d_%d" % (lv, j))
         return self._fns[k]
+
+    def jfn(self, lv, j):
+        k = ("J", lv, j)
+        if k not in self._fns:
+            self._fns[k] = _rename(_hook_helper_tmpl, "J%d_%d" % (lv, j))
+        return self._fns[k]
+
+    def item(self, lv):
+        if self._batching is None:
+            self._batching = _mk_batching()
+        return self._batching[1](lv)
+
+    def make_hook_context(self, lv):
+        cls = type("HookContext", (self.asynq.AsyncContext,), {
+            "pause": _rename(_hook_pause_tmpl, "K%d" % lv), "resume": _rename(_hook_resume_tmpl, "K%d" % lv)})
+        c = cls()
+        c.ctx, c.lv, c.mode, c.h = self, lv, self.hook[0], self.hook[1]
+        c.npause = c.nresume = 0
+        return c
 
     def make_bottom(self):
         from asynq import futures
@@ -715,8 +791,10 @@ def run_glue(case):
         return "(lvl %s %s %s %d)" % (L["await"], hs, own, 1 if L["orphan"] else 0)
 
     rule = extract_frame_rule(os.path.join(_build_dir(), "asynq", "async_task.py"))
-    lines = ["(case debug %d glue %d %s (levels %s))" % (
-        case["id"], 1 if ctx.bottom else 0, rule, " ".join(lv_sx(L) for L in ctx.levels))]
+    bsx = "(hook %s %d)" % ctx.hook if ctx.hook else ("1" if ctx.bottom else "0")
+    lines = ["(case debug %d glue %s %s (levels %s))" % (case["id"], bsx, rule, " ".join(lv_sx(L) for L in ctx.levels))]
+    from asynq import scheduler as _sched
+    _sched.reset()   # nothing left over from earlier cases of this worker (a failed suspension leaves its batch scheduled)
     e = _glue_caller(ctx)
     crossed = 0
     if e is None:
@@ -752,10 +830,12 @@ def run_glue(case):
             o.value()
         except Exception:
             ctx.events.append("(stack orphan 999 (999))")
+    _sched.reset()
     lines += ctx.events
     lines.append("(end)")
     lv = ctx.levels
-    feats = ["glue:depth=%d" % len(lv), "glue:crossed=%d" % crossed, "glue:bottom=%d" % (1 if ctx.bottom else 0)]
+    feats = ["glue:depth=%d" % len(lv), "glue:crossed=%d" % crossed,
+             "glue:bottom=%s" % ("hook-" + ctx.hook[0] if ctx.hook else 1 if ctx.bottom else 0)]
     feats += sorted({"glue:handler=" + L["handler"][0] for L in lv} | {"glue:await=" + L["await"] for L in lv})
     if any(L["own"] for L in lv):
         feats.append("glue:helpers")
@@ -763,7 +843,7 @@ def run_glue(case):
     if any(L["orphan"] for L in lv):
         feats.append("glue:orphan-after-%s" % ("failure" if failed_creator else "success"))
     nontrivial = None
-    if crossed >= 2 or (failed_creator and any(L["orphan"] for L in lv)):
+    if crossed >= 2 or (failed_creator and any(L["orphan"] for L in lv)) or (ctx.hook and e is not None):
         nontrivial = hashlib.sha1(json.dumps([case["bottom"], lv], sort_keys=True).encode()).hexdigest()[:16]
     return {"lines": lines, "features": feats, "nontrivial": nontrivial}
 
@@ -905,8 +985,10 @@ class Table(object):
             res = "(raised %s)" % re.sub(r"\W", "", type(e).__name__)
         self.obs.append("(obs %s %s %s %s %s)" % (self.kind, scen, op, state, res))
 
-    def diag(self, scen, obj, state, ops=("str", "repr", "dump")):
-        """str / repr / dump of `obj`, which the harness drove into abstract state `state`"""
+    def diag(self, scen, obj, state, ops=("str", "repr", "dump"), shows=None):
+        """str / repr / dump of `obj`, which the harness drove into abstract state `state`; `shows`: a value whose own
+        str() must occur in str(obj) and whose repr() in repr(obj) (a text that describes another value is reported
+        as `raised Misdescribed`)"""
         if not self.want(scen):
             return
         from asynq import debug as adebug
@@ -914,10 +996,10 @@ class Table(object):
         cls_str = {"fut": _classify_fut, "task": _classify_task, "batch": _classify_batch, "sched": _classify_sched}.get(
             k, lambda s: "(text)")
         if "str" in ops:
-            self.cell(scen, "str", state, lambda: _must_str(str(obj)), cls_str)
+            self.cell(scen, "str", state, lambda: _must_show(str(obj), shows, str), cls_str)
         if "repr" in ops:
             cls_repr = _classify_fut if k in ("fut", "task", "batch") else cls_str
-            self.cell(scen, "repr", state, lambda: _must_str(repr(obj)), cls_repr)
+            self.cell(scen, "repr", state, lambda: _must_show(repr(obj), shows, repr), cls_repr)
         if "dump" in ops and hasattr(obj, "dump"):
             def do_dump():
                 buf = io.StringIO()
@@ -937,8 +1019,25 @@ def _must_str(s):
     return s
 
 
+class Misdescribed(Exception):
+    pass
+
+
+def _must_show(text, shows, fn):
+    _must_str(text)
+    if shows is not None and fn(shows[0]) not in text:
+        raise Misdescribed("%r does not show %s" % (text, fn(shows[0])))
+    return text
+
+
 class _Err(Exception):
     pass
+
+
+# values whose shape matters to `"...%s" % value`
+SHAPES = [("emptyTuple", ()), ("tuple1", ("capybara",)), ("tuple2", ("user", 42)), ("tuple3", (1, 2, 3)),
+          ("nestedTuple", ((1, 2),)), ("dict", {"a": 1}), ("emptyDict", {}), ("percentString", "100%s and %d%% of %(x)s"),
+          ("none", None), ("list", [1, 2]), ("int", 3)]
 
 
 def _mk_batching():
@@ -1414,6 +1513,25 @@ def sc_scoped_value(t):
     t.diag("holdsFuture", sv, "(plain)")
     sv2 = scoped_value.AsyncScopedValue(sv)
     t.diag("holdsScopedValue", sv2, "(plain)")
+    for name, shape in SHAPES:
+        t.diag("default:" + name, scoped_value.AsyncScopedValue(shape), "(plain)", shows=(shape,))
+        v = scoped_value.AsyncScopedValue("x")
+        v.set(shape)
+        t.diag("set:" + name, v, "(plain)", shows=(shape,))
+    cur = scoped_value.AsyncScopedValue(None)
+
+    @asynq.asynq()
+    def shaped(name, shape):
+        with cur.override(shape):
+            t.diag("overridden:" + name, cur, "(plain)", shows=(shape,))
+            UBatch.hook = lambda b: t.diag("overridePaused:" + name, cur, "(plain)", shows=(None,))
+            yield UItem(1)
+            UBatch.hook = None
+            t.diag("overrideResumed:" + name, cur, "(plain)", shows=(shape,))
+        t.diag("overrideExited:" + name, cur, "(plain)", shows=(None,))
+
+    for name, shape in SHAPES:
+        shaped(name, shape)
 
     @asynq.asynq()
     def body():
@@ -1468,6 +1586,13 @@ def sc_scoped_override(t):
     from asynq import scoped_value
     sv = scoped_value.AsyncScopedValue(1)
     _sc_override(t, lambda: sv.override(2))
+    for name, shape in SHAPES:
+        held = scoped_value.AsyncScopedValue(shape)
+        ov = held.override(shape)
+        t.diag("fresh:" + name, ov, "(plain)", shows=(shape,))
+        with ov:
+            t.diag("entered:" + name, ov, "(plain)", shows=(shape,))
+        t.diag("left:" + name, ov, "(plain)", shows=(shape,))
 
 
 def sc_prop_override(t):
@@ -1480,6 +1605,12 @@ def sc_prop_override(t):
             return "Target"
     tg = Target()
     _sc_override(t, lambda: scoped_value.async_override(tg, "x", 2))
+    for name, shape in SHAPES:
+        ov = scoped_value.async_override(tg, "x", shape)
+        t.diag("fresh:" + name, ov, "(plain)", shows=(shape,))
+        with ov:
+            t.diag("entered:" + name, ov, "(plain)", shows=(shape,))
+        t.diag("left:" + name, ov, "(plain)", shows=(shape,))
 
 
 def sc_async_gen(t):
